@@ -97,6 +97,8 @@ func checkC05(c *Ctx) {
 	teardownOrder(c, "C05")
 	c.everyPacketDecoded()
 	c.flagBitTables()
+	// whatever state the rings are in, their index arithmetic does not panic
+	c.ringMemorySafety()
 }
 
 // deferredRecover: a function deferred in the entry block calls recover().
